@@ -207,6 +207,90 @@ def native_unit(args, what):
     return run
 
 
+def cfgdiff_unit():
+    import cfgdiff
+    import alu_arms, verifier_unit, helpers_unit
+
+    def run(unit_name, parts, tier, use_cache, jobs, pid=None):
+        import time
+        t0 = time.time()
+        trees, inv = cfgdiff.make_trees(driver.REPO, WORK)
+        obligations = []
+        gens = [('interp', interp.generate), ('alu_arms', alu_arms.generate), ('verifier', verifier_unit.generate), ('helpers', lambda r, o: helpers_unit.generate(r, o, std_only_ok=True)),
+                ('disasm', disasm.generate), ('asm', asm.generate), ('codec', codec.generate), ('jit', jit_unit.generate), ('vmapi', vmapi.generate)]
+        cmp = cfgdiff.compare_units(trees, WORK, gens)
+        second = []
+        for unit, (eq, df, absent) in cmp.items():
+            for k in absent:
+                obligations.append(dict(unit=unit_name, harness='absent:' + unit, name='%s: span `%s` exists in only one configuration (absent, not different)' % (unit, k), status='ok', backend='extractor (cfg evaluation)', why=''))
+            for k in eq:
+                obligations.append(dict(unit=unit_name, harness='same-text:' + unit, name='%s: extracted span `%s` is byte-identical with and without std (one proof covers both)' % (unit, k),
+                                        status='ok', backend='extractor (cfg evaluation + sha256)', why=''))
+            hard = [k for k in df if 'whole file' not in k]
+            for k in df:
+                obligations.append(dict(unit=unit_name, harness='differs:' + unit, name='%s: span `%s` differs between the configurations -> %s' % (unit, k, 'covered by the identical sub-spans' if k not in hard else 'proved again on the no_std tree'),
+                                        status='ok', backend='extractor (cfg evaluation + sha256)', why=''))
+            if hard:
+                second.append(unit)
+        reproved_files = set()
+        for unit, (eq, df, absent) in cmp.items():
+            for k in df:
+                if 'whole file' not in k:
+                    reproved_files.add(k.split('::')[0])
+        for fn, n in sorted(inv.items()):
+            want = cfgdiff.STD_SITES.get(fn)
+            if n == 0 and want is None:
+                continue
+            if want and want[0] == n:
+                obligations.append(dict(unit=unit_name, harness='inventory:' + fn, name='cfg(feature = "std") sites in %s: %d, each with a story (%s)' % (fn, n, want[1][:160]),
+                                        status='ok', backend='extractor (cfg inventory)', why=''))
+            elif fn in reproved_files:
+                obligations.append(dict(unit=unit_name, harness='inventory:' + fn, name='cfg(feature = "std") sites in %s changed (%d): the spans of %s that differ are proved again on the no_std tree' % (fn, n, fn),
+                                        status='ok', backend='extractor (cfg inventory)', why=''))
+            else:
+                obligations.append(dict(unit=unit_name, harness='inventory:' + fn, name='cfg(feature = "std") sites in %s changed: %d (table says %s)' % (fn, n, want[0] if want else 0),
+                                        status='undecided', backend='extractor (cfg inventory)', why='a new std-dependent site outside every verified span has no verification story in /verif/tools/units/cfgdiff.py'))
+        metas = {}
+        for unit in second:
+            if unit == 'vmapi':
+                gen = lambda r, o: vmapi.generate(r, o, features=('"cranelift"',))
+            else:
+                gen = dict(gens)[unit]
+            ur = driver.run_kani_unit(unit, gen, 'nostd', lambda h: not KIND_HEAVY.get(h), tier, use_cache, jobs, repo=trees['nostd'])
+            metas[unit] = ur.meta
+            for h, res in sorted(ur.results.items()):
+                cls = driver.classify(res)
+                if cls == 'undecided':
+                    obligations.append(dict(unit=unit_name, harness='nostd:%s/%s' % (unit, h), name='harness did not complete', status='undecided', backend='kani', why=json.dumps(res.get('error'))[:200]))
+                    continue
+                for c in res['checks']:
+                    d = c.get('description', '')
+                    if c.get('category') == 'cover' or 'ensures:' in d or kani.is_panic_check(c) and '/src/' not in kani.check_file(c):
+                        st = _status(c)
+                        if c.get('category') == 'cover' and c['status'] != 'Satisfied':
+                            st = 'undecided'
+                        obligations.append(dict(unit=unit_name, harness='nostd:%s/%s' % (unit, h), name=d.replace('\n', ' ')[:160], status=st, backend='kani/cbmc+cadical (no_std tree)',
+                                                why='', output=json.dumps(c)[:800] if st != 'ok' else ''))
+        # the no_std JitMemory::new contract lives in the jit unit (its crate is always built without `std`)
+        ur = driver.run_kani_unit('jit', jit_unit.generate, 'std', lambda h: h == 'jit_memory_new_nostd', tier, use_cache, jobs)
+        for h, res in ur.results.items():
+            for c in res['checks']:
+                d = c.get('description', '')
+                if 'ensures:' in d:
+                    obligations.append(dict(unit=unit_name, harness='jit/' + h, name=d[:160], status=_status(c), backend='kani/cbmc+cadical', why='', output=''))
+        meta = dict(cmd='extract.cfg_strip for {std} and {} + unit generators on both trees; cargo kani on the no_std tree for: %s' % (', '.join(second) or 'none'),
+                    backend='extractor + Kani', wall_s=round(time.time() - t0, 1), units_proved_twice=second,
+                    std_site_inventory=inv, trusted=[], assumptions=[
+                        'Vec / Box / String / format! / BTreeMap are the same alloc items under their std and alloc names',
+                        'asm_parser::parse: easy_parse vs parse of the same grammar (trusted combine grammar; only the error text differs)',
+                        'JitMemory::new (std): allocation + mprotect + transmute are not executable by the verifier; the emission passes it runs are the shared jit_compile text',
+                        'std-only helpers (rand, sqrti, bpf_trace_printf, bpf_time_getns) are absent without std, not different'])
+        return dict(obligations=obligations, known=[], samples=[dict(unit=unit_name, sample=obligations[0]['name'])], meta=meta)
+    return run
+
+
+KIND_HEAVY = {}
+
 UNITS = {
     'interp': dict(run=kani_unit(interp.generate, harness_file='src/interpreter/harnesses.rs'),
                    witness=None),
@@ -215,6 +299,7 @@ UNITS = {
     'asm': dict(run=kani_unit(asm.generate, harness_file='src/assembler.rs')),
     'vmapi': dict(run=kani_unit(vmapi.generate, harness_file='src/harnesses.rs')),
     'jit': dict(run=kani_unit(jit_unit.generate, harness_file='src/jit/harnesses.rs')),
+    'cfgdiff': dict(run=cfgdiff_unit()),
     'asmtable': dict(run=native_unit(['asm-table'], 'assemble() of the documented mnemonic')),
 }
 
